@@ -232,3 +232,27 @@ Definition installed_fixpoint_tags (orig : string) (rewritten : res string) : li
       lines_tags la' lb
   | _ => ["viol:installed-read-write-failed"]
   end.
+
+(* ---- installed database: read then re-write, modulo the two recorded findings -------
+   What remains of "reading a written file and writing it again reproduces it"
+   once C16-F1 and C16-F2 are set aside: the Z: lines are gone, and the i: line
+   is another i: line; every other line is reproduced, in order. *)
+Definition keepz (l : string) : bool := negb (starts "Z:" l).
+Definition drop_z (ls : list string) : list string := filter keepz ls.
+Definition line_mod_i (x y : string) : Prop := x = y \/ (starts "i:" x = true /\ starts "i:" y = true).
+Definition InstalledFixpointModIZ (orig rewritten : string) : Prop :=
+  Forall2 line_mod_i (drop_z (split_on ch_nl orig)) (split_on ch_nl rewritten).
+Definition s_f1 : string := "viol:installed-installif-go-slice-format".
+Definition s_f2 : string := "viol:installed-Z-not-read".
+
+(* A DIRECTORY entry whose name ends in two slashes (legal in a tar stream, not
+   produced by tar writers): the writer's TrimSuffix removes one slash per write,
+   so F:a/ becomes F:a the second time (finding C16-F8). As for dup_dir, the
+   generic tag is attributed to that mechanism only when the input has such a name. *)
+Definition ends_slash (s : string) : bool := match last_char s with Some a => Ascii.eqb a ch_slash | None => false end.
+Definition two_slashes (files : list hdr) : bool :=
+  existsb (fun h => h_isdir h && ends_slash (trim_suffix_char ch_slash (h_name h))) files.
+Definition attribute_two_slashes (files : list hdr) (tags : list string) : list string :=
+  if two_slashes files && existsb (String.eqb s_notfix) tags
+  then "viol:installed-directory-trailing-slash-trimmed-once-per-write" :: filter (fun t => negb (t =? s_notfix)) tags
+  else tags.
